@@ -491,12 +491,17 @@ def Wrapper.less (w o : Wrapper) : R Bool :=
   | .mapSlice _ => .ok false
   | .drop _ => .unmodelled "unresolved drop"
 
+/-- `v == false` on an interface -/
+def isFalseV : GoVal → Bool
+  | .bool false => true
+  | _ => false
+
 /-- `wrapperValue.Test`: `v.value != nil && v.value != false` (an interface comparison with a
 `bool`, which cannot panic); `valueEmbed.Test` (true) for a `MapSlice` -/
 def Wrapper.test (w : Wrapper) : R Bool :=
   match w.resolve with
   | .wrapper v | .array v | .map v | .string v | .struct v =>
-    .ok (!v.isNil && !(match v with | .bool false => true | _ => false))
+    .ok (!v.isNil && !isFalseV v)
   | .mapSlice _ => .ok true
   | .drop _ => .unmodelled "unresolved drop"
 
@@ -538,10 +543,9 @@ def keyTyOf : GoVal → Option Ty
   | .str _ => some .str
   | _ => none
 
-/-- `Contains(e)` -/
-def Wrapper.contains (w o : Wrapper) : R Bool :=
-  let e := o.iface
-  match w.resolve with
+/-- `Contains(e)` of a wrapper that is not a `dropWrapper` -/
+def containsW (w : Wrapper) (e : GoVal) : R Bool :=
+  match w with
   | .wrapper _ => .ok false
   | .array v => do
     -- arrayValue.Contains
@@ -573,6 +577,9 @@ def Wrapper.contains (w o : Wrapper) : R Bool :=
   | .mapSlice kvs =>
     mapSliceContains kvs e
   | .drop _ => .unmodelled "unresolved drop"
+
+/-- `Contains(e)` -/
+def Wrapper.contains (w o : Wrapper) : R Bool := containsW w.resolve o.iface
 
 /-! ## The grammar actions -/
 
